@@ -8,6 +8,7 @@
 include!(concat!(env!("OUT_DIR"), "/ls_mods.rs"));
 
 mod apisim;
+mod cachesim;
 mod check;
 mod corpus;
 mod lsp;
